@@ -15,7 +15,7 @@ Not decided: compressed bodies decompress to the original (library), value encod
 """
 from ..inline import inline_view
 from ..mir import AnchorLost
-from ..util import df_of, operand_path, path_last, fn_short, in_set
+from ..util import dj_of, df_of, operand_path, path_last, fn_short, in_set
 
 REQ = "scylla_cql::frame::request::"
 TYPES = "scylla_cql::frame::types::"
@@ -436,9 +436,6 @@ def r4(ctx, facts):
     s0 = stores.get(0)
     r.instance("header[0]=version4", s0 is not None and s0[1][2][0] == "use" and s0[1][2][1][0] == "k" and int(s0[1][2][1][3]) == 4, "byte 0 must be the constant 4", b.stmt_span(s0[1]) if s0 else b.span)
     s1 = stores.get(1)
-    fl = {st[1][0] for _, st, _ in flag_sites(b)}
-    e1 = df.expr_of_rvalue(s1[1][2]) if s1 else None
-    r.instance("header[1]=flags", s1 is not None and e1 is not None and e1[0] == "val" and e1[1][0] in fl, "byte 1 must be the accumulated flags", b.stmt_span(s1[1]) if s1 else b.span)
     s4 = stores.get(4)
     ok4 = False
     if s4:
@@ -457,32 +454,40 @@ def r4(ctx, facts):
     # flag constants: COMPRESSION set in the Some(compression) region together with compress_append; TRACING iff parameter
     comp = b.calls_to("scylla_cql::frame::compress_append")
     ser = [c for bb, c in b.calls() if bb in b.live_blocks and c.decl and c.decl.endswith("SerializableRequest::serialize")]
-    fs = flag_sites(b)
-    consts = {c: (bb, st) for bb, st, c in fs}
     cflag = facts.consts.get("scylla_cql::frame::flag::COMPRESSION", (None, None))[1]
     tflag = facts.consts.get("scylla_cql::frame::flag::TRACING", (None, None))[1]
     r.instance("flag-constants", cflag == 1 and tflag == 2, "frame flags COMPRESSION=%s TRACING=%s; v4: 0x01, 0x02" % (cflag, tflag), nontrivial=False)
-    if len(comp) == 1 and 1 in consts:
-        cb = comp[0].bb
-        fb = consts[1][0]
-        st_c = df.state_in.get(cb) or {}
-        st_f = df.state_in.get(fb) or {}
+    # header byte 1, whatever way the code assembles it (`flags |= C` under ifs, or `a_flag | b_flag` of per-option values):
+    # in every disjunctive state that reaches the store, the stored value is COMPRESSION iff compression is Some, TRACING iff
+    # the tracing parameter is true
+    dj = dj_of(b, facts)
+    bad, n_states = [], 0
+    if s1 is not None:
+        bb1, st1 = s1
+        j1 = b.stmts(bb1).index(st1)
+        e1 = dj.expr_of_rvalue(st1[2])
+        for stt in dj.states_before_stmt(bb1, j1):
+            n_states += 1
+            v = dj.eval_in(stt, e1)
+            cd = [vv for k, vv in stt.items() if k[0] == "disc" and k[1] == (2, ())]
+            comp_known = 1 if cd and in_set(cd[0], {1}) else 0 if cd and in_set(cd[0], {0}) else None
+            tv = stt.get(("val", (3, ())))
+            trac_known = 1 if in_set(tv, {1}) else 0 if in_set(tv, {0}) else None
+            if v is None or comp_known is None or trac_known is None or v != (comp_known * (cflag or 0)) | (trac_known * (tflag or 0)):
+                bad.append("flags=%s compression=%s tracing=%s" % (v, {1: "Some", 0: "None", None: "?"}[comp_known], trac_known))
+    r.instance("header[1]=flags", s1 is not None and n_states > 0 and not bad,
+               "byte 1 must be COMPRESSION iff the body was compressed, | TRACING iff tracing was requested; offending states: %s" % sorted(set(bad))[:4], b.stmt_span(s1[1]) if s1 else b.span)
+    if len(comp) == 1:
+        st_c = df.state_in.get(comp[0].bb) or {}
         kc = [k for k, v in st_c.items() if k[0] == "disc" and k[1][0] == 2 and in_set(v, {1})]
-        kf = [k for k, v in st_f.items() if k[0] == "disc" and k[1][0] == 2 and in_set(v, {1})]
-        r.instance("COMPRESSION-iff-compressed", bool(kc) and bool(kf), "COMPRESSION flag and compress_append must both be in the Some(compression) region", comp[0].span)
-        # uncompressed path does not set the flag: serialize() call is in the None region
+        r.instance("COMPRESSION-iff-compressed", bool(kc), "compress_append must run in the Some(compression) region", comp[0].span)
         if ser:
             st_s = df.state_in.get(ser[0].bb) or {}
             ks = [k for k, v in st_s.items() if k[0] == "disc" and k[1][0] == 2 and in_set(v, {0})]
             r.instance("uncompressed-in-None-region", bool(ks), "direct serialize() must be in the compression==None region", ser[0].span)
     else:
-        r.fail("COMPRESSION-iff-compressed", "compress_append call / COMPRESSION flag site not found in make")
-    if 2 in consts:
-        st_t = df.state_in.get(consts[2][0]) or {}
-        kt = [k for k, v in st_t.items() if k == ("val", (3, ())) and in_set(v, {1})]
-        r.instance("TRACING-iff-parameter", bool(kt), "TRACING flag must be set exactly in the tracing==true region", b.stmt_span(consts[2][1]))
-    else:
-        r.fail("TRACING-iff-parameter", "TRACING flag site not found")
+        r.fail("COMPRESSION-iff-compressed", "compress_append call not found in make")
+    r.instance("TRACING-iff-parameter", s1 is not None and not any("tracing=?" in x for x in bad), "the flags byte must depend on the tracing parameter", b.span, nontrivial=False)
     # length: computed from data.len() - HEADER_SIZE after body; copy_from_slice of to_be_bytes into [5..9]
     tb = b.calls_to("num::<impl u32>::to_be_bytes", "core::num::<impl u32>::to_be_bytes")
     cps = b.calls_to("copy_from_slice")
